@@ -11,7 +11,7 @@
      forall c base, wf_carb c base = true -> forall ord lf,
        proto_ok (carb_step c) (carb_complete c) (carb_expected c base) (carb_start c ord lf base) *)
 From Coq Require Import String List Bool Permutation Arith.
-From PV Require Import Lib.Strings Model.NameProtocol Proofs.NameProtocol Generated.C03Table.
+From PV Require Import Lib.Strings Model.NameProtocol Proofs.NameProtocol Generated.C03Table Generated.C03Pipe.
 From PV Require Model.ForceField Proofs.ForceField.
 Import ListNotations.
 
@@ -146,7 +146,7 @@ Theorem C03_repair_add_complete : forall ref ns ssb,
     exists w', add_hydrogens ref (fun _ _ => true) ssb w = Some w' /\ NoDup (w_names w') /\
       forall x, In x (w_names w') <->
                 In x ref /\ is_pseudo x = false /\ ~ (ssb = true /\ x = "HG"%string /\ ~ In x ns).
-Proof. exact repair_add_complete. Qed.
+Proof. intros ref. exact (repair_add_complete ref (fun _ _ => true) (fun _ _ => true) (fun _ _ => eq_refl) (fun _ _ => eq_refl)). Qed.
 
 (* generated: for every amino-acid template, with get_nearest_bonds as the feasibility test
    and no neighbouring residue, the seenmap loop rebuilds the whole side chain from
@@ -154,6 +154,157 @@ Proof. exact repair_add_complete. Qed.
 Theorem C03_rebuild_templates_table : forall t, In t rtemplates ->
   rebuild_from_backbone_ok t = true /\ rebuild_single_ok t = true.
 Proof. intros t. exact (rtemplates_meaning rtemplates t rtemplates_all_ok). Qed.
+
+(* ---- the third clause end to end, at name level ------------------------------------
+   pipeline_names (Model/NameProtocol.v) composes, for ONE residue: terminus patches
+   (removals + alternate-name renames) -> repair_heavy -> state patches -> add_hydrogens ->
+   the optimisation protocol of the residue's kind -> cleanup -> HIS.set_state -> partition
+   by "the force field has an entry".
+
+   For ALL input name lists ns, terminus patch effects ps1 that apply without clash, final
+   reference name lists ref, flags (any atom missing in the molecule, bridged cysteine,
+   opt / noopt), protocol kinds k in {none, Flip mv, Alcoholic h, Water} with ANY label
+   list ls (any oracle answers, any length), cleanup / histidine choices, placement oracles
+   that never fail, and ANY force-field predicate entry that has an entry for every expected
+   name (the residue is fully parameterised): if the boolean guards hold
+     wf_input: names after the terminus patches and the reference names are distinct, no
+               OP1/OP2, no N+1/C-1 among the atoms, no placeholder name in the reference,
+               and (repair runs, or nothing is missing or extra),
+     wf_kind:  moveable names distinct and among the reference atoms / h not a placeholder /
+               not (H2 without H1),
+   then the run ends (or the label list did not fit the protocol) with
+     - final names = written names, none unassigned, no duplicate, no placeholder, and
+       exactly the expected final-state set (reference atoms; + h; + H1,H2; minus the
+       cleanup / set_state hydrogen),
+     - the deletions logged by repair_heavy are exactly the names outside the reference,
+     - every input heavy atom that belongs to the reference occurs exactly once.
+   Not covered by this theorem: state patches after repair (ps2 = []), Carboxylic protocols
+   (C03_pipeline_carboxylic_partial), nucleic OP1/OP2 aliasing. *)
+Theorem C03_pipeline_written_set :
+  forall (ref : nl) (feas hfeas : string -> nl -> bool) (entry : string -> bool),
+  (forall a l, feas a l = true) -> (forall a l, hfeas a l = true) ->
+  forall ps1 ns w0 am ssb opt k ls cl his,
+  apply_patches ps1 (mkW ns []) = Some w0 ->
+  let l0 := w_names w0 in
+  let R := ref_atoms ref ssb l0 in
+  wf_input ref l0 am = true ->
+  wf_kind k R = true ->
+  (forall c, cl = Some c -> is_hyd (c_h1 c) = true) ->
+  (forall x, In x (expected_final opt k cl his R) -> entry x = true) ->
+  pipeline_ok ref l0 am (expected_final opt k cl his R)
+    (pipeline_names ref feas hfeas entry (MFull opt) ps1 [] am ssb k ls cl his ns).
+Proof. exact pipeline_written_set. Qed.
+
+(* the same with the predicate taken from C01's force-field map: entry x = "lookup m r (idf x)
+   is defined", for any map m, residue key r and name interning idf *)
+Theorem C03_pipeline_written_set_lookup :
+  forall (m : ForceField.ffmap) (r : ForceField.id) (idf : string -> ForceField.id)
+         (ref : nl) (feas hfeas : string -> nl -> bool),
+  let entry := fun x => match ForceField.lookup m r (idf x) with Some _ => true | None => false end in
+  (forall a l, feas a l = true) -> (forall a l, hfeas a l = true) ->
+  forall ps1 ns w0 am ssb opt k ls cl his,
+  apply_patches ps1 (mkW ns []) = Some w0 ->
+  wf_input ref (w_names w0) am = true ->
+  wf_kind k (ref_atoms ref ssb (w_names w0)) = true ->
+  (forall c, cl = Some c -> is_hyd (c_h1 c) = true) ->
+  (forall x, In x (expected_final opt k cl his (ref_atoms ref ssb (w_names w0))) ->
+             exists e, ForceField.lookup m r (idf x) = Some e) ->
+  pipeline_ok ref (w_names w0) am (expected_final opt k cl his (ref_atoms ref ssb (w_names w0)))
+    (pipeline_names ref feas hfeas entry (MFull opt) ps1 [] am ssb k ls cl his ns).
+Proof.
+  intros m r idf ref feas hfeas entry Hf Hh ps1 ns w0 am ssb opt k ls cl his Hp Hw Hk Hc He.
+  apply (pipeline_written_set ref feas hfeas entry Hf Hh ps1 ns w0 am ssb opt k ls cl his Hp Hw Hk Hc).
+  intros x Hx. destruct (He x Hx) as [e E]. unfold entry. rewrite E. reflexivity.
+Qed.
+
+(* ---- instantiated on the six built-in force fields ----------------------------------
+   pcases (Generated/C03Pipe.v): 53 concrete one-residue pipeline inputs observed on builder
+   peptides (every optimisable residue type and ALA/GLY neighbours at N-terminal / internal /
+   C-terminal position, charged and neutral termini, waters).  full_<FF> = the cases whose
+   expected final names all have an entry in the map C01 builds from <FF>.DAT/.names
+   (FF_<FF>.built) under the residue name the run ended with.  For each such case: every
+   label list, every never-failing placement oracle -> the pipeline writes exactly the expected
+   names (pipeline_ok as above). *)
+Theorem C03_pipeline_written_set_AMBER : forall c, In c full_AMBER ->
+  forall feas hfeas ls, (forall a x, feas a x = true) -> (forall a x, hfeas a x = true) ->
+  exists w0 e, apply_patches (pc_ps1 c) (mkW (pc_ns c) []) = Some w0 /\ pcase_expected c = Some e /\
+    pipeline_ok (pc_ref c) (w_names w0) false e
+      (pipeline_names (pc_ref c) feas hfeas (entry_AMBER c) (MFull true) (pc_ps1 c) [] false (pc_ssb c)
+                      (pc_kind c) ls (pc_cl c) (pc_his c) (pc_ns c)).
+Proof. exact (pcases_ff_sound pcases entry_AMBER pcases_guard). Qed.
+
+Theorem C03_pipeline_written_set_CHARMM : forall c, In c full_CHARMM ->
+  forall feas hfeas ls, (forall a x, feas a x = true) -> (forall a x, hfeas a x = true) ->
+  exists w0 e, apply_patches (pc_ps1 c) (mkW (pc_ns c) []) = Some w0 /\ pcase_expected c = Some e /\
+    pipeline_ok (pc_ref c) (w_names w0) false e
+      (pipeline_names (pc_ref c) feas hfeas (entry_CHARMM c) (MFull true) (pc_ps1 c) [] false (pc_ssb c)
+                      (pc_kind c) ls (pc_cl c) (pc_his c) (pc_ns c)).
+Proof. exact (pcases_ff_sound pcases entry_CHARMM pcases_guard). Qed.
+
+Theorem C03_pipeline_written_set_PARSE : forall c, In c full_PARSE ->
+  forall feas hfeas ls, (forall a x, feas a x = true) -> (forall a x, hfeas a x = true) ->
+  exists w0 e, apply_patches (pc_ps1 c) (mkW (pc_ns c) []) = Some w0 /\ pcase_expected c = Some e /\
+    pipeline_ok (pc_ref c) (w_names w0) false e
+      (pipeline_names (pc_ref c) feas hfeas (entry_PARSE c) (MFull true) (pc_ps1 c) [] false (pc_ssb c)
+                      (pc_kind c) ls (pc_cl c) (pc_his c) (pc_ns c)).
+Proof. exact (pcases_ff_sound pcases entry_PARSE pcases_guard). Qed.
+
+Theorem C03_pipeline_written_set_PEOEPB : forall c, In c full_PEOEPB ->
+  forall feas hfeas ls, (forall a x, feas a x = true) -> (forall a x, hfeas a x = true) ->
+  exists w0 e, apply_patches (pc_ps1 c) (mkW (pc_ns c) []) = Some w0 /\ pcase_expected c = Some e /\
+    pipeline_ok (pc_ref c) (w_names w0) false e
+      (pipeline_names (pc_ref c) feas hfeas (entry_PEOEPB c) (MFull true) (pc_ps1 c) [] false (pc_ssb c)
+                      (pc_kind c) ls (pc_cl c) (pc_his c) (pc_ns c)).
+Proof. exact (pcases_ff_sound pcases entry_PEOEPB pcases_guard). Qed.
+
+Theorem C03_pipeline_written_set_SWANSON : forall c, In c full_SWANSON ->
+  forall feas hfeas ls, (forall a x, feas a x = true) -> (forall a x, hfeas a x = true) ->
+  exists w0 e, apply_patches (pc_ps1 c) (mkW (pc_ns c) []) = Some w0 /\ pcase_expected c = Some e /\
+    pipeline_ok (pc_ref c) (w_names w0) false e
+      (pipeline_names (pc_ref c) feas hfeas (entry_SWANSON c) (MFull true) (pc_ps1 c) [] false (pc_ssb c)
+                      (pc_kind c) ls (pc_cl c) (pc_his c) (pc_ns c)).
+Proof. exact (pcases_ff_sound pcases entry_SWANSON pcases_guard). Qed.
+
+Theorem C03_pipeline_written_set_TYL06 : forall c, In c full_TYL06 ->
+  forall feas hfeas ls, (forall a x, feas a x = true) -> (forall a x, hfeas a x = true) ->
+  exists w0 e, apply_patches (pc_ps1 c) (mkW (pc_ns c) []) = Some w0 /\ pcase_expected c = Some e /\
+    pipeline_ok (pc_ref c) (w_names w0) false e
+      (pipeline_names (pc_ref c) feas hfeas (entry_TYL06 c) (MFull true) (pc_ps1 c) [] false (pc_ssb c)
+                      (pc_kind c) ls (pc_cl c) (pc_his c) (pc_ns c)).
+Proof. exact (pcases_ff_sound pcases entry_TYL06 pcases_guard). Qed.
+
+(* non-vacuity: how many of the 53 cases are fully parameterised, per force field
+   (AMBER, CHARMM, PARSE, PEOEPB, SWANSON, TYL06); only PARSE has the neutral termini *)
+Example C03_pipeline_ff_nonvacuous : full_counts = [33; 33; 53; 33; 33; 33].
+Proof. vm_compute. reflexivity. Qed.
+
+(* --clean prints every atom left after the terminus patches and adds nothing *)
+Theorem C03_pipeline_clean : forall ref feas hfeas entry ps1 ps2 ns w0 am ssb k ls cl his,
+  apply_patches ps1 (mkW ns []) = Some w0 ->
+  pipeline_names ref feas hfeas entry MClean ps1 ps2 am ssb k ls cl his ns = PRes (w_names w0) (w_names w0) [] [].
+Proof. exact pipeline_clean. Qed.
+
+(* --assign-only: written = the current names that have an entry, the rest is reported
+   unassigned, nothing is added *)
+Theorem C03_pipeline_assign_only : forall ref feas hfeas entry ps1 ps2 ns w0 w1 am ssb k ls cl his,
+  apply_patches ps1 (mkW ns []) = Some w0 -> apply_patches ps2 w0 = Some w1 -> NoDup (w_names w1) ->
+  exists final written un,
+    pipeline_names ref feas hfeas entry MAssignOnly ps1 ps2 am ssb k ls cl his ns = PRes final written un [] /\
+    final = his_names his (w_names w1) /\ written = filter entry final /\
+    un = filter (fun x => negb (entry x)) final /\
+    (forall x, In x written -> In x (w_names w1) /\ entry x = true).
+Proof. exact pipeline_assign_only. Qed.
+
+(* Carboxylic residues: the protocol stage of the pipeline, for every table instance (atom
+   list as presented when the object is constructed), every order/longflag decision, every
+   label list and finalize choice *)
+Theorem C03_pipeline_carboxylic_partial : forall i c ord lf ls best, In i instances -> i_kind i = KCarb c ->
+  match proto_stage (PCarb c ord lf) (LCarb ls best) (i_base i) with
+  | POk l' => final_ok (i_expected i) l'
+  | PDisabled => True
+  | PErr => False
+  end.
+Proof. intros i c ord lf ls best. exact (pipeline_carb_stage instances i c ord lf ls best instances_ok). Qed.
 
 (* apply_force_field: hits ++ misses is a permutation of the atoms (none lost, none
    duplicated); the printed list is exactly the hits *)
@@ -237,6 +388,18 @@ Print Assumptions C03_water_nohb_table.
 Print Assumptions C03_water_names_refuted.
 Print Assumptions C03_repair_add_complete.
 Print Assumptions C03_rebuild_templates_table.
+Print Assumptions C03_pipeline_written_set.
+Print Assumptions C03_pipeline_written_set_lookup.
+Print Assumptions C03_pipeline_written_set_AMBER.
+Print Assumptions C03_pipeline_written_set_CHARMM.
+Print Assumptions C03_pipeline_written_set_PARSE.
+Print Assumptions C03_pipeline_written_set_PEOEPB.
+Print Assumptions C03_pipeline_written_set_SWANSON.
+Print Assumptions C03_pipeline_written_set_TYL06.
+Print Assumptions C03_pipeline_ff_nonvacuous.
+Print Assumptions C03_pipeline_clean.
+Print Assumptions C03_pipeline_assign_only.
+Print Assumptions C03_pipeline_carboxylic_partial.
 Print Assumptions C03_partition_no_loss_no_dup.
 Print Assumptions C03_ligand_step_once.
 Print Assumptions C03_patch_removals_table.
